@@ -212,6 +212,8 @@ REPLAYS = {
            for variant in ("plain", "tiny", "huge", "zero-size") for f in "BH"},
         **{f"non-finite:Sphere:zero-size:{f}": _nonfinite(_sphere0, [[5e-324, 0.0, 0.0], [1e-160, 1e-160, 1e-160]], f) for f in "BH"},
         **{f"non-finite:Cuboid:near-edge:{f}": _cuboid_near_edge(f) for f in "BH"},
+        **{f"non-finite:Triangle:zero-size:{f}": _nonfinite(lambda magpy: magpy.misc.Triangle(vertices=[(0, 0, 0), (1, 0, 0), (0.25, 0, 0)], polarization=(0.1, 0.2, 0.3)),
+                                                            [[0.3, 0.4, 0.5]], f) for f in "BH"},
         "hang-or-crash:Cylinder:denormal-height": _cylinder_denormal_hang,
         "hang-or-crash:CylinderSegment:el3-nan-to-int": _cylseg_el3_valueerror,
         **{f"non-finite:{cls}:near-vertex:{f}": _near_vertex(cls, f) for cls in ("Triangle", "Tetrahedron", "TriangularMesh") for f in "BH"},
